@@ -162,6 +162,9 @@ its history (checked by replaying both histories with either fix alone).
 | C10-4 | named spawns that collide | named top-level and child spawns from all goroutines (this found KF-C10-2), registry-empty check after Stop |
 | C09-3 | what a failed actor does before its supervisor has decided | clause "suspended until the decision" (sequential cases; windows with another decision in between are not judged) |
 | C06-3 | clean-up code that spawns a child while the actor is already terminating | `LateSpawn` probes in C06 and the C07 tree unit |
+| C13-3 | the frame reader itself (only envelopes and messages were decoded) | frame-level unit on the connection actor's own reader: hostile, off-by-one and limit-neighbourhood length fields |
+| C16-3 | a reader that rejects a legal vector was reported as a harness failure (inconclusive) | it is a verdict of the "survives serialisation" clause |
+| C20-4 | jobs armed by the new life of a restarted actor | every life arms drawn once / loop jobs in its OnLaunch handler (own message id and reference per life) |
 | C03-3 | whether a "stashed" message is really in the stash | white-box stash length for undisturbed actors, stash-burst shape (m stashed, Unstash(n) for every relation of n to m) |
 
 ### 9.5 Known findings (genuine, not repaired) and why they are not small
